@@ -93,6 +93,9 @@ macro_rules! cell_valid1 {
     ($ctx:expr, $cs:expr, $refs:expr, $v:expr, $V:ty, $T:ty, $O:ty, $U:ty, $label:expr, $paths:expr) => {{
         for (k, rf) in valid1_fns().into_iter().enumerate() {
             for &path in $paths {
+                if $ctx.is_sanitizer_mode() && !$ctx.every(5) {
+                    continue;
+                }
                 let got = catch(|| obs_of::<$O, $U>(call_valid1::<$V, $T, $O, $U>(rf, $v, $cs.w, $cs.mp, path)));
                 cmp_cell($ctx, $cs, rf, $label, path, got, &$refs.valid1[k]);
             }
@@ -104,6 +107,9 @@ macro_rules! cell_plain1 {
         if let Some(pl) = $refs.plain.as_ref() {
             for (k, rf) in PLAIN_FNS.into_iter().enumerate() {
                 for &path in $paths {
+                    if $ctx.is_sanitizer_mode() && !$ctx.every(5) {
+                        continue;
+                    }
                     let got = catch(|| obs_of::<$O, $U>(call_plain1::<$V, $T, $O, $U>(rf, $v, $cs.w, $cs.mp, path)));
                     cmp_cell($ctx, $cs, rf, $label, path, got, &pl[k]);
                 }
@@ -116,6 +122,9 @@ macro_rules! cell_pair {
         for (k, rf) in PAIR_FNS.into_iter().enumerate() {
             for &path in $paths {
                 if path == Path::Buf && !rf.has_buf_path() {
+                    continue;
+                }
+                if $ctx.is_sanitizer_mode() && !$ctx.every(5) {
                     continue;
                 }
                 let got = catch(|| obs_of::<$O, $U>(call_valid2::<$V, $T, $V2, $T2, $O, $U>(rf, $v, $v2, $cs.w, $cs.mp, path)));
@@ -508,7 +517,7 @@ fn main() {
     let mut ctx = Ctx::from_args("C07");
     let san = ctx.is_sanitizer_mode();
     // ---- rolling matrix -----------------------------------------------------------------
-    let nmax = if san { ctx.budget(4, 6) } else { ctx.budget(7, 10) };
+    let nmax = if san { 0 } else { ctx.budget(7, 10) };
     for len in 0..=nmax {
         for w in 1..=len + 2 {
             for rep in 0..3 {
@@ -526,10 +535,10 @@ fn main() {
             }
         }
     }
-    let nr = if san { ctx.budget(2, 6) } else { ctx.budget(40, 800) };
+    let nr = if san { ctx.budget(1, 4) } else { ctx.budget(40, 800) };
     for k in 0..nr {
         if let Some(mut rng) = ctx.random_case() {
-            let len = rng.range_usize(0, if san { 12 } else { 50 });
+            let len = rng.range_usize(0, if san { 7 } else { 50 });
             let w = rng.range_usize(1, len + 2);
             let mp = if rng.chance(0.25) { None } else { Some(rng.range_usize(0, w)) };
             let (x, _, _) = if k % 3 == 0 { let c = *rng.pick(&ALL_CLASSES); (series(&mut rng, c, NullPat::NoNulls, len), c, NullPat::NoNulls) } else { random_series(&mut rng, &ALL_CLASSES, len) };
@@ -539,7 +548,7 @@ fn main() {
         }
     }
     // ---- map / aggregation matrix and accessor coherence ---------------------------------
-    let amax = if san { ctx.budget(5, 7) } else { ctx.budget(10, 16) };
+    let amax = if san { ctx.budget(2, 4) } else { ctx.budget(10, 16) };
     for len in 0..=amax {
         for pat in NULL_PATTERNS {
             if let Some(mut rng) = ctx.sweep_case() {
@@ -552,7 +561,7 @@ fn main() {
             }
         }
     }
-    let nm = if san { ctx.budget(4, 10) } else { ctx.budget(200, 4000) };
+    let nm = if san { ctx.budget(2, 6) } else { ctx.budget(200, 4000) };
     for _ in 0..nm {
         if let Some(mut rng) = ctx.random_case() {
             let len = rng.range_usize(0, 40);
